@@ -272,7 +272,7 @@ func (w *kqueue) AddWith(name string, opts ...addOpt) error {
 	if err != nil {
 		return err
 	}
-	w.watches.addUserWatch(name)
+	w.watches.addUserWatch(filepath.Clean(name))
 	return nil
 }
 
